@@ -255,6 +255,18 @@ def build_harness(crate="seqdrv", exe=None, release=True):
     """cargo build of a harness crate against /repo's current working tree, hooks on;
     returns (path of the binary `exe` (default: crate name), error log)"""
     d = os.path.join(HARNESS, crate)
+    if REPO != "/repo":
+        # scratch-copy mode (testing seeded changes without touching /repo): a copy of the harness crate
+        # with its path dependencies rewritten, and its own target dir
+        tag = hashlib.md5(REPO.encode()).hexdigest()[:8]
+        alt = os.path.join(BUILD, "alt_" + tag, crate)
+        os.makedirs(os.path.dirname(alt), exist_ok=True)
+        sh(["rsync", "-a", "--delete", "--exclude", "Cargo.lock", d + "/", alt + "/"])
+        ct = open(os.path.join(alt, "Cargo.toml")).read().replace('"/repo/', '"' + REPO.rstrip("/") + "/")
+        open(os.path.join(alt, "Cargo.toml"), "w").write(ct)
+        d = alt
+        ENV["CARGO_TARGET_DIR"] = os.path.join(BUILD, "alt_" + tag, "target")
+    tgt = ENV["CARGO_TARGET_DIR"]
     with Lock("cargo"):
         if crate not in _built:
             lock_src = os.path.join(REPO, "Cargo.lock")
@@ -267,7 +279,7 @@ def build_harness(crate="seqdrv", exe=None, release=True):
             if rc:
                 return None, (o + e)
             _built[crate] = True
-        return os.path.join(TARGET, "release" if release else "debug", exe or crate), ""
+        return os.path.join(tgt, "release" if release else "debug", exe or crate), ""
 
 
 def run_lines(exe, lines, timeout=1200, shards=8, env=None):
